@@ -59,3 +59,14 @@ Definition script_correct (prog : list Z) : bool :=
 (* the offsets the check regards as instruction boundaries *)
 Definition boundaries (prog : list Z) : list Z :=
   match static_info prog with Some (instrs, _) => instrs | None => [] end.
+
+(* With a methods bit field, as Management.checkScriptAndMethods calls it: every method offset of the manifest has to be
+   inside the script (checked by the caller) and, by IsScriptCorrect(script, offsets), an instruction offset found by
+   the scan.  [methods] = the offsets. *)
+Definition script_correct_m (prog : list Z) (methods : list Z) : bool :=
+  script_correct prog && forallb (fun m => mem_z m (boundaries prog)) methods.
+
+(* a fresh VM with the script loaded and the instruction pointer moved to a method offset
+   (LoadScript + Context.Jump(offset), what a contract call does) *)
+Definition start_at (prog : list Z) (sid : N) (base limit : Z) (m : Z) : state :=
+  set_ip (init_state prog sid base limit) m.
